@@ -166,3 +166,8 @@ SUBS = [
         render=lambda c: {"which": c["which"], "text": c["text"]["text"]}, n={"quick": 150, "thorough": 1500}, shards={"quick": 2, "thorough": 4},
         text_keys=("text",)),
 ]
+
+# thorough tier: coverage-guided fuzzing (atheris / libFuzzer) of the same oracle, see fuzz/fuzz_parse.py
+from vlib import fuzzrun  # noqa: E402
+_fuzz_last = {}
+SUBS.append(fuzzrun.fuzz_sub(ID, lambda: next(s for s in SUBS if s.name == "plssdesc"), _fuzz_last))
